@@ -40,6 +40,12 @@ theorem C11_snapshot_is_store_at_creation (m : M) :
     ∃ cp, (step m .pushChoice).cps = cp :: m.cps ∧ cp.snap = m.st ∧ cp.h = m.st.heap.length
       ∧ cp.tr = m.trail.length := ⟨_, rfl, rfl, rfl, rfl⟩
 
+theorem trust_of_top (mA : M) (cp : CP) (rest : List CP) (hi : Inv mA) (hc : mA.cps = cp :: rest) :
+    (step mA .trust).st = cp.snap ∧ (step mA .trust).trail = dropTo cp.tr mA.trail
+    ∧ (step mA .trust).cps = rest := by
+  have hs := hi.snap cp (by rw [hc]; simp)
+  simp [step, hc, hs]
+
 /-- **Main theorem.** Take any reachable state `m0`, create a choice point, run any goal that does
     not itself remove that choice point (it may create, backtrack into, exhaust and cut any number of
     inner choice points, to any depth: `keeps 0 ops`), then fail.  The store is exactly the
@@ -47,34 +53,27 @@ theorem C11_snapshot_is_store_at_creation (m : M) :
     during the goal hold the last value put (`overrides … (puts ops)` touches nothing else); the
     trail and the older choice points are as before. -/
 theorem C11_goal_failure_restores_pre_goal_state (pre ops : List Op) (hk : keeps 0 ops = true) :
-    let m0 := run init pre
-    let m1 := step (run (step m0 .pushChoice) ops) .trust
-    m1.st = overrides m0.st (puts ops)
-    ∧ m1.st.heap = m0.st.heap ∧ m1.st.stack = m0.st.stack
-    ∧ m1.trail = m0.trail
-    ∧ m1.cps = mapSnap (fun s => overrides s (puts ops)) m0.cps := by
-  intro m0 m1
-  have hi0 : Inv m0 := C11_invariant_of_reachable_states pre
+    (step (run (step (run init pre) .pushChoice) ops) .trust).st = overrides (run init pre).st (puts ops)
+    ∧ (step (run (step (run init pre) .pushChoice) ops) .trust).st.heap = (run init pre).st.heap
+    ∧ (step (run (step (run init pre) .pushChoice) ops) .trust).st.stack = (run init pre).st.stack
+    ∧ (step (run (step (run init pre) .pushChoice) ops) .trust).trail = (run init pre).trail
+    ∧ (step (run (step (run init pre) .pushChoice) ops) .trust).cps
+        = mapSnap (fun s => overrides s (puts ops)) (run init pre).cps := by
+  generalize hm0 : run init pre = m0
+  have hi0 : Inv m0 := hm0 ▸ C11_invariant_of_reachable_states pre
   have hi1 : Inv (step m0 .pushChoice) := step_inv m0 .pushChoice hi0
-  let cp0 : CP := ⟨m0.st.heap.length, m0.trail.length, m0.st.stack.length, m0.st⟩
-  have hr := run_keeps ops 0 (step m0 .pushChoice) [] cp0 m0.cps m0.trail hk hi1 rfl rfl ⟨[], rfl⟩ rfl
+  have hr := run_keeps ops 0 (step m0 .pushChoice) []
+    ⟨m0.st.heap.length, m0.trail.length, m0.st.stack.length, m0.st⟩ m0.cps m0.trail hk hi1 rfl rfl ⟨[], rfl⟩ rfl
   obtain ⟨hcps, pre', htr⟩ := hr
   have hi2 : Inv (run (step m0 .pushChoice) ops) := run_inv ops _ hi1
+  generalize run (step m0 .pushChoice) ops = mA at hcps htr hi2
   simp only [mapSnap, List.map_cons] at hcps
-  have hsnap := hi2.snap _ (by rw [hcps]; simp)
-  have hst : m1.st = overrides m0.st (puts ops) := by
-    show (step (run (step m0 .pushChoice) ops) .trust).st = _
-    simp only [step, hcps]
-    exact hsnap
-  refine ⟨hst, ?_, ?_, ?_, ?_⟩
-  · rw [hst]; exact (overrides_heap m0.st (puts ops)).1
-  · rw [hst]; exact (overrides_heap m0.st (puts ops)).2
-  · show (step (run (step m0 .pushChoice) ops) .trust).trail = _
-    simp only [step, hcps]
-    rw [htr]
-    exact dropTo_append_exact m0.trail pre'
-  · show (step (run (step m0 .pushChoice) ops) .trust).cps = _
-    simp only [step, hcps, mapSnap]
+  obtain ⟨h1, h2, h3⟩ := trust_of_top mA _ _ hi2 hcps
+  refine ⟨h1, ?_, ?_, ?_, ?_⟩
+  · rw [h1]; exact (overrides_heap m0.st (puts ops)).1
+  · rw [h1]; exact (overrides_heap m0.st (puts ops)).2
+  · rw [h2, htr]; exact dropTo_append_exact m0.trail pre'
+  · rw [h3]; rfl
 
 /-- Without `bb_put/2` in the goal the pre-goal store is restored exactly, including every
     global variable: `bb_b_put/2` assignments (and the heap copies cached by `bb_get/2`) revert. -/
@@ -122,14 +121,11 @@ theorem C11_bb_put_persists (pre ops1 ops2 : List Op) (k v : Nat)
     unrecorded: binding the unbound heap variable at `h` adds a trail entry iff `h < hb`; when it
     does not, the cell lies at or above the saved heap top of *every* choice point, i.e. in the part
     of the heap that backtracking to any of them discards. -/
-theorem C11_untrailed_bindings_are_discarded_cells (ops : List Op) (h v : Nat)
-    (hu : (run init ops).st.heap[h]? = some .unbound) :
-    let m := run init ops
+theorem C11_untrailed_bindings_are_discarded_cells (m : M) (hi : Inv m) (h v : Nat)
+    (hu : m.st.heap[h]? = some .unbound) :
     ((step m (.bind h v)).trail = .heapVar h :: m.trail ↔ h < m.hb)
     ∧ (¬ h < m.hb → (step m (.bind h v)).trail = m.trail
         ∧ ∀ cp ∈ m.cps, (restore (step m (.bind h v)) cp).heap.length ≤ h) := by
-  intro m
-  have hi := C11_invariant_of_reachable_states ops
   constructor
   · simp only [step, hu, trailHeap]
     constructor
@@ -174,13 +170,13 @@ example :
     variable, stack variable, nested choice point cut away, then failure: everything is back. -/
 example :
     let pre := [Op.newVar, .newAttrVar, .newStackVar, .newCell 3]
-    let goal := [Op.newVar, .bind 0 10, .bind 4 11, .bind 1 12, .bindStack 0 13, .pushChoice, .newVar,
-                 .bind 5 14, .relink 3 (.val 9), .cut 1, .bbBPut 2 5]
+    let goal := [Op.newVar, .bind 0 10, .bind 3 11, .bind 1 12, .bindStack 0 13, .pushChoice, .newVar,
+                 .bind 4 14, .relink 2 (.val 9), .cut 1, .bbBPut 2 5]
     keeps 0 goal = true
     ∧ (run (step (run init pre) .pushChoice) goal).st.heap
-        = [.val 10, .val 12, .unbound, .val 9, .val 11, .val 14]
+        = [.val 10, .val 12, .val 9, .val 11, .val 14]
     ∧ (run (step (run init pre) .pushChoice) goal).trail.length = 5
-    ∧ (step (run (step (run init pre) .pushChoice) goal) .trust).st.heap = [.unbound, .attr, .unbound, .val 3]
+    ∧ (step (run (step (run init pre) .pushChoice) goal) .trust).st.heap = [.unbound, .attr, .val 3]
     ∧ (step (run (step (run init pre) .pushChoice) goal) .trust).st.stack = [.unbound] := by decide
 
 /-- inner choice point backtracked into and exhausted inside the goal -/
